@@ -165,6 +165,7 @@ def parseEvent (ts : List String) : Option CEvent :=
   | ["close"] => some (.plain .close)
   | ["open"] => some (.plain .wsOpen)
   | ["drop"] => some (.plain .wsClose)
+  | ["wsfail"] => some (.plain .wsFail)
   | ["failinitial"] => some (.plain .failInitial)
   | ["svcstopped"] => some (.plain .svcStopped)
   | ["welcome", v] => (bool? v).map (fun b => .plain (.welcome b))
